@@ -233,10 +233,12 @@ Example C01_program_nonvacuous :
             SRepeat (LCount (RCall "sq" [RLit (LInt 2)])) (SBlock [SPrint (Some (RLit (LInt 7)))]);
             SRepeat (LCount (RExpr (EBin BSub (ECall "round" [RVar "total"]) (ELit (LInt 3))))) (SBlock [SPrintln (Some (RLit (LInt 8)))]);
             SReg R_KELVIN (RReg R_KELVIN);
+            SSet (OpList [MatrixInline (NStr "candle") (Some (RLit (LInt 1), Some (RVar "w"))) (Some (RLit (LInt 0), None)) true;
+                          MatrixInline (NVar "who") (Some (RLit (LInt 0), None)) (Some (RExpr (EBin BSub (EVar "total") (ELit (LInt 4))), Some (RLit (LInt 1)))) false]);
             SAssign "r" (RCall "round" [RVar "total"]); SPrintln (Some (RCall "floor" [RExpr (EBin BDiv (EVar "total") (ELit (LInt 2)))]));
             SReg R_HUE (RCall "sq" [RVar "total"]); SPrint (Some (RCall "sq" [RExpr (EBin BSub (EVar "total") (ELit (LInt 7)))]));
             SPrintln (Some (RVar "total"))] in
-  let w := [mkLight "a" "g" "l" KPlain [0; 0; 0; 0]; mkLight "" "g" "m" KPlain [0; 0; 0; 0]; mkLight "c" "" "l" KPlain [0; 0; 0; 0]; mkLight "b" "h" "l" KPlain [0; 0; 0; 0]; mkLight "strip" "h" "m" (KMulti 8) [0; 0; 0; 0]] in
+  let w := [mkLight "a" "g" "l" KPlain [0; 0; 0; 0]; mkLight "" "g" "m" KPlain [0; 0; 0; 0]; mkLight "c" "" "l" KPlain [0; 0; 0; 0]; mkLight "b" "h" "l" KPlain [0; 0; 0; 0]; mkLight "strip" "h" "m" (KMulti 8) [0; 0; 0; 0]; mkLight "candle" "h" "m" (KMatrix 4 2) [0; 0; 0; 0]] in
   Forall (top_stmt_ok (fst (collect p [] [])) (snd (collect p [] []))) p /\ NoDup (map fst (defs_of p)) /\
   exists evs, run_src 400 p w = SFinished evs /\ (12 <= length evs)%nat.
 Proof.
